@@ -181,20 +181,36 @@ def build_multifile(group: list[dict], directory: str) -> str:
     paths = {}
     for D in group:
         d = D["d"]
-        f = d["file"]
+        f = _multi_name(d)
         schema = decode_schema(d["resps"][0]["schemas"][0]["s"], dialect)
         item = decode_schema(D["defs"]["#/definitions/Item"], dialect)
         ok = {"description": "OK", "schema": schema} if is2 else {"description": "OK", "content": {uncps(d["mts"][0]): {"schema": schema}}}
-        with open(os.path.join(directory, f + ".json"), "w") as fd:
-            json.dump({"responses": {"Ok": ok}, "definitions": {"Item": item}}, fd)
-        op: dict = {"responses": {uncps(d["resps"][0]["key"]): {"$ref": f + ".json#/responses/Ok"}}}
+        for h in d["resps"][0]["headers"]:
+            hs = decode_schema(h["schema"]["s"], dialect)
+            # a Swagger 2.0 Header Object has no `schema`: the file-local reference is only written in the body schema there
+            ok.setdefault("headers", {})[uncps(h["name"])] = {"type": "string"} if is2 else {"required": bool(h["required"]), "schema": hs}
+        key = uncps(d["resps"][0]["key"])
+        if d.get("layout") == "pathitem":
+            op: dict = {"responses": {key: ok}}
+            content = {"PathItem": {"get": op}, "definitions": {"Item": item}}
+            paths["/" + f] = {"$ref": f + ".json#/PathItem"}
+        else:
+            op = {"responses": {key: {"$ref": f + ".json#/responses/Ok"}}}
+            content = {"responses": {"Ok": ok}, "definitions": {"Item": item}}
+            paths["/" + f] = {"get": op}
         if is2:
             op["produces"] = [uncps(m) for m in d["mts"]]
-        paths["/" + f] = {"get": op}
+        with open(os.path.join(directory, f + ".json"), "w") as fd:
+            json.dump(content, fd)
     head = {"swagger": "2.0"} if is2 else {"openapi": "3.1.0" if dialect == "3.1" else "3.0.2"}
     with open(os.path.join(directory, "main.json"), "w") as fd:
-        json.dump({**head, "info": {"title": "t", "version": "1"}, "paths": paths}, fd)
+        # the root document has the same pointer with other content: a file-local reference must not end up here
+        json.dump({**head, "info": {"title": "t", "version": "1"}, "paths": paths, "definitions": {"Item": {"type": "array"}}}, fd)
     return os.path.join(directory, "main.json")
+
+
+def _multi_name(d: dict) -> str:
+    return d["file"] + ("_pi" if d.get("layout") == "pathitem" else "")
 
 
 def _validate(st: dict, op, resp: dict) -> list[str]:
@@ -230,16 +246,17 @@ def observe_multifile(item: tuple[list[dict], list[list[dict]]]) -> list[tuple[i
     out: list = []
     try:
         schema = schemathesis.openapi.from_path(build_multifile(group, directory))
-        ops = [schema["/" + D["d"]["file"]]["GET"] for D in group]
+        ops = [schema["/" + _multi_name(D["d"])]["GET"] for D in group]
         for phase, order in (("sequential", range(len(group))), ("sequential-reversed", reversed(range(len(group))))):
             for i in order:
                 for j, resp in enumerate(resps[i]):
                     out.append((i, j, phase, _validate(st, ops[i], resp)))
         combos = []
+        few = [sorted(range(len(r)), key=lambda j: (len(r[j]["hdrs"]), j))[:3] for r in resps]  # header-less responses first
         for a, b in itertools.permutations(range(len(group)), 2):
-            combos.extend(((a, x), (b, y)) for x in range(len(resps[a])) for y in range(len(resps[b])))
+            combos.extend(((a, x), (b, y)) for x in few[a] for y in few[b])
         for perm in itertools.permutations(range(len(group)), 3):
-            combos.extend(tuple((i, x) for i in perm) for x in range(min(len(r) for r in resps)))
+            combos.extend(tuple((i, few[i][x]) for i in perm) for x in range(1))
         for combo in combos:
             n = len(combo)
             inside = [threading.Event() for _ in range(n)]
@@ -269,6 +286,60 @@ def observe_multifile(item: tuple[list[dict], list[list[dict]]]) -> list[tuple[i
     finally:
         shutil.rmtree(directory, ignore_errors=True)
     return out
+
+
+def observe_status_race(item: tuple[int, dict, dict]) -> tuple[list[str], list[str]]:
+    """Two threads run the FIRST checks of one operation of a freshly loaded schema at the same time, in the schedule that
+    ResponsesStatusCache.tla's refuted design (publish-then-fill) goes wrong in: thread A is paused inside the expansion of
+    the documented status keys, thread B validates its response completely in that window, then A continues."""
+    di, resp_a, resp_b = item
+    st = _setup()
+    import schemathesis.specs.openapi.checks as oas_checks
+
+    op = st["from_dict"](build_document(_DEFS[di]))["/r"]["GET"]
+    original = oas_checks.expand_status_code
+    paused, resume = threading.Event(), threading.Event()
+    state = {"first": True}
+
+    def expand(code):
+        result = list(original(code))
+        if getattr(_gate, "status_role", None) == "A" and state["first"]:
+            state["first"] = False
+            paused.set()
+            resume.wait(GATE_TIMEOUT)
+        return iter(result)
+
+    results: dict = {}
+
+    def worker_a() -> None:
+        _gate.status_role = "A"
+        try:
+            results["a"] = _validate(st, op, resp_a)
+        finally:
+            _gate.status_role = None
+            paused.set()
+
+    def worker_b() -> None:
+        paused.wait(GATE_TIMEOUT)
+        try:
+            results["b"] = _validate(st, op, resp_b)
+        finally:
+            resume.set()
+
+    oas_checks.expand_status_code = expand
+    try:
+        threads = [threading.Thread(target=worker_a, daemon=True), threading.Thread(target=worker_b, daemon=True)]
+        for t in threads:
+            t.start()
+        for t in threads:
+            t.join(4 * GATE_TIMEOUT)
+    finally:
+        oas_checks.expand_status_code = original
+    return results.get("a", ["Crash:NoVerdict"]), results.get("b", ["Crash:NoVerdict"])
+
+
+def _documents(key: str, status: int) -> bool:
+    return len(key) == 3 and all(k in "xX" or k == s for k, s in zip(key, str(status)))
 
 
 def _work(item: tuple[int, dict]) -> list[str]:
@@ -302,6 +373,8 @@ def signature_parts(D: dict, resp: dict, feat: dict, kind: str, direction: str) 
     extras: list[str] = []
     if d.get("file"):
         parts.append("multi-file:" + feat.get("phase", "sequential").split("-")[0])
+    elif feat.get("phase"):
+        parts.append(feat["phase"])
     if kind in ("JsonSchemaError", "MalformedJson") or direction == "crash":
         parts.append("mediaType#%d" % feat["mt"])
         if feat["ct"] != "documented":
@@ -318,7 +391,7 @@ def signature_parts(D: dict, resp: dict, feat: dict, kind: str, direction: str) 
         parts.append("contentType=" + feat["ct"])
     elif kind in ("MissingHeaders", "HeaderSchema"):
         if kind == "HeaderSchema":
-            types = sorted({(h["schema"].get("s", {}).get("type") or ["?"])[0] + ("(%s)" % h["schema"]["s"]["format"] if h["schema"].get("s", {}).get("format") else "")
+            types = sorted({(h["schema"].get("s", {}).get("type") or ["$ref" if "ref" in h["schema"].get("s", {}) else "?"])[0] + ("(%s)" % h["schema"]["s"]["format"] if h["schema"].get("s", {}).get("format") else "")
                             for r in d["resps"] for h in r["headers"]
                             if any(uncps(h["name"]).lower() == uncps(s["name"]).lower() for s in resp["hdrs"])})
             parts.append("header:" + "+".join(types))
@@ -390,15 +463,50 @@ def run(ctx: Ctx) -> Outcome:
             groups.setdefault(D["d"]["dialect"], []).append(di)
     multi_runs = 0
     multi_ctx: dict = {}
-    for dialect, dis in sorted(groups.items()):
-        per_op = [[c for di, c in all_cases if di == x] for x in dis]
-        multi_ctx[dialect] = {"group": [_DEFS[x] for x in dis], "cases": per_op}
-        for i, j, phase, kinds in observe_multifile(([_DEFS[x] for x in dis], [[c["resp"] for c in cs] for cs in per_op])):
+    import multiprocessing as mp
+
+    order = sorted(groups.items())
+    for dialect, dis in order:
+        multi_ctx[dialect] = {"group": [_DEFS[x] for x in dis], "cases": [[c for di, c in all_cases if di == x] for x in dis]}
+    with mp.get_context("fork").Pool(max(1, len(order))) as pool:
+        multi_results = pool.map(observe_multifile, [(multi_ctx[d]["group"], [[c["resp"] for c in cs] for cs in multi_ctx[d]["cases"]]) for d, _ in order]) if order else []
+    for (dialect, dis), results in zip(order, multi_results):
+        per_op = multi_ctx[dialect]["cases"]
+        for i, j, phase, kinds in results:
             c = dict(per_op[i][j], feat=dict(per_op[i][j]["feat"], phase=phase))
             cases.append((dis[i], c))
             obs.append(kinds)
             multi_runs += 1
+    # the status check raced: operations without `default` and with several keys; A asks for a code of the first key, B for
+    # a code documented by a later key (both are documented: UndefinedStatusCode is expected for neither)
+    race_items, race_cases = [], []
+    by_def: dict[int, dict[int, dict]] = {}
+    for di, c in all_cases:
+        if _DEFS[di]["d"]["slice"] == "keys" and not c["resp"]["hdrs"]:
+            by_def.setdefault(di, {}).setdefault(c["resp"]["status"], c)
+    for di, by_status in sorted(by_def.items()):
+        keys = [uncps(r["key"]) for r in _DEFS[di]["d"]["resps"]]
+        if "default" in keys or len(keys) < 2:
+            continue
+        first = [s for s in sorted(by_status) if _documents(keys[0], s)]
+        later = [s for s in sorted(by_status) if not _documents(keys[0], s) and any(_documents(k, s) for k in keys[1:])]
+        for sb in later[:2]:
+            if first:
+                race_items.append((di, by_status[first[0]]["resp"], by_status[sb]["resp"]))
+                race_cases.append((di, by_status[first[0]], by_status[sb]))
+    for (di, ca, cb), (ka, kb) in zip(race_cases, common.pmap(observe_status_race, race_items)):
+        for c, kinds in ((ca, ka), (cb, kb)):
+            cases.append((di, dict(c, feat=dict(c["feat"], phase="status-check-raced"))))
+            obs.append(kinds)
     t_replay = time.time() - t1
+    cache_models = {v: tlc.require_ok(tlc.run_tlc("ResponsesStatusCache", "ResponsesStatusCache_%s.cfg" % v, workers=1, timeout=300), "status cache model " + v)
+                    for v in ("publishthenfill", "fillthenpublish", "none")}
+    if "VerdictsRight" not in cache_models["publishthenfill"].violated:
+        raise tlc.TLCFailure("ResponsesStatusCache: publish-then-fill was not refuted - the status-check race dimension is vacuous")
+    for v in ("fillthenpublish", "none"):
+        if cache_models[v].violated:
+            out.violations.append(Violation("C04:spec:VerdictsRight", "design %s violates VerdictsRight in ResponsesStatusCache.tla" % v,
+                                            {"kind": "spec", "invariant": "VerdictsRight", "trace": cache_models[v].counterexample[:60]}))
     # design level: the shared-resolver design must be refuted and the per-call design proved by TLC (vacuity guard of the above)
     shared = tlc.require_ok(tlc.run_tlc("ResponsesResolver", "ResponsesResolver_shared.cfg", workers=1, timeout=300), "resolver model (shared)")
     percall = tlc.require_ok(tlc.run_tlc("ResponsesResolver", "ResponsesResolver_percall.cfg", workers=1, timeout=300), "resolver model (per call)")
@@ -463,7 +571,8 @@ def run(ctx: Ctx) -> Outcome:
         "samples": [{"case": _short(_DEFS[cases[n][0]], cases[n][1]["resp"]), "expected": cases[n][1]["exp"], "reported": obs[n]} for n in picks],
         "evaluations": len(cases),
         "distinct_nontrivial": nontrivial,
-        "definitions": len(_DEFS), "multi_file_observations": multi_runs,
+        "definitions": len(_DEFS), "multi_file_observations": multi_runs, "status_check_races": len(race_items),
+        "status_cache_model": {"publish_then_fill_refuted": True, "fill_then_publish_states": cache_models["fillthenpublish"].distinct},
         "resolver_model": {"shared_design_refuted_by": [l.split("<")[1].split(" line")[0] for l in shared.counterexample if l.startswith("State") and "<" in l],
                            "per_call_design_states": percall.distinct},
         "rule": "every (response definition, received response) pair reachable in Responses.tla under %s (TLC-enumerated, each "
